@@ -322,7 +322,11 @@ func runDirected(w World, o BatchOpts, known []Known, res *BatchResult) {
 				return
 			}
 			res.Stats["directed.returned"]++
-			res.Violations = append(res.Violations, ReplayRef{Key: v.Key(), Detail: "recorded finding reproduces again: " + v.Detail, Path: f, Seed: rf.Case.Seed})
+			what := "recorded finding reproduces again: "
+			if !sameViolation(v, rf.Violation) {
+				what = "the recorded case of another finding now fails like this: "
+			}
+			res.Violations = append(res.Violations, ReplayRef{Key: v.Key(), Detail: what + v.Detail, Path: f, Seed: rf.Case.Seed})
 			return
 		}
 	}
